@@ -7,6 +7,8 @@ package props
 
 import (
 	"fmt"
+	"strings"
+	"time"
 
 	lua "github.com/yuin/gopher-lua"
 
@@ -85,6 +87,7 @@ func genGrowCross(thorough bool) Gen {
 }
 
 func c12ProgramFamilies(r *harness.Run) {
+	c12CoroutineNesting(r)
 	th := r.Thorough()
 	configs := []struct {
 		name string
@@ -131,4 +134,93 @@ func c12ProgramFamilies(r *harness.Run) {
 		order = append(order, "D6/F-call")
 		pr.runGens(gens, order)
 	}
+}
+
+// c12CoroutineNesting: recursion *through coroutines* is a recursion like any other - a function that
+// resumes a new coroutine of itself without end must end in a catchable error, not in the death of
+// the process (Lua 5.1: "C stack overflow" at 200 nested resumes). Canaries in child processes
+// first (unbounded nesting allocates a thread per level; the child has a heap watchdog); then, in
+// process, every nesting depth 1..260 through resume, through wrap, and alternating: below the
+// limit the innermost value comes back, beyond it the error is caught at the top, and in both
+// cases the state computes correctly afterwards and a second run gives the same answer.
+func c12CoroutineNesting(r *harness.Run) {
+	canaries := []struct{ name, src string }{
+		{"wrap-recursion", `local function cw() return coroutine.wrap(cw)() end local ok, msg = pcall(cw) assert(ok == false and type(msg) == "string", tostring(msg)) local co = coroutine.wrap(function() return 7 end) assert(co() == 7)`},
+		{"resume-recursion", `local function cr() return coroutine.resume(coroutine.create(cr)) end local ok = cr() assert(ok == true or ok == false) assert(select(2, coroutine.resume(coroutine.create(function() return 7 end))) == 7)`},
+	}
+	for _, cn := range canaries {
+		crashed, detail := canaryRun(cn.src, 60*time.Second)
+		r.Eval("canary/"+cn.name, true, func() interface{} { return map[string]interface{}{"case": "canary", "program": cn.src} })
+		if crashed || strings.HasPrefix(detail, "memory-exhaustion") {
+			r.Violation("nesting/canary/"+cn.name+"/process-death", "unbounded recursion through coroutines must end in a catchable error; the interpreter process "+detail+"\nprogram: "+cn.src, map[string]interface{}{"program": cn.src})
+			return // the in-process sweep would meet the same fate
+		} else if detail != "ok" {
+			r.Violation("nesting/canary/"+cn.name+"/wrong-result", detail+"\nprogram: "+cn.src, map[string]interface{}{"program": cn.src})
+		}
+	}
+	const src = `
+local how, depth = ...
+local function nest(n)
+  if n == 0 then return "bottom" end
+  local via = how
+  if how == "alternate" then via = (n % 2 == 0) and "resume" or "wrap" end
+  if via == "wrap" then
+    return coroutine.wrap(nest)(n - 1)
+  end
+  local ok, v = coroutine.resume(coroutine.create(nest), n - 1)
+  if not ok then error(v, 0) end
+  return v
+end
+local ok, v = pcall(nest, depth)
+local after = select(2, coroutine.resume(coroutine.create(function(a) return a + 1 end), 41))
+return ok, ok and v or "error", after
+`
+	L := lua.NewState()
+	defer L.Close()
+	fn, err := L.LoadString(src)
+	if err != nil {
+		harness.Fatal("c12 nesting: %v", err)
+	}
+	n := 0
+	for _, how := range []string{"resume", "wrap", "alternate"} {
+		limit := -1
+		for depth := 1; depth <= 260; depth++ {
+			var outs [2]string
+			for round := 0; round < 2; round++ {
+				n++
+				top := L.GetTop()
+				L.Push(fn)
+				L.Push(lua.LString(how))
+				L.Push(lua.LNumber(depth))
+				if err := L.PCall(2, 3, nil); err != nil {
+					outs[round] = "escaped: " + firstLine(err.Error())
+				} else {
+					outs[round] = L.Get(-3).String() + "|" + L.Get(-2).String() + "|" + L.Get(-1).String()
+				}
+				L.SetTop(top)
+			}
+			sig := fmt.Sprintf("nesting/%s", how)
+			switch {
+			case outs[0] != outs[1]:
+				r.Violation(sig+"/not-repeatable", fmt.Sprintf("%d coroutines nested through %s: first run %q, second run on the same state %q", depth, how, outs[0], outs[1]), map[string]interface{}{"how": how, "depth": depth, "script": src})
+			case outs[0] == "true|bottom|42":
+				if limit >= 0 {
+					r.Violation(sig+"/limit-not-monotonic", fmt.Sprintf("nesting %d coroutines through %s succeeds although %d failed", depth, how, limit), map[string]interface{}{"how": how, "depth": depth, "script": src})
+				}
+			case outs[0] == "false|error|42":
+				if limit < 0 {
+					limit = depth
+				}
+			default:
+				r.Violation(sig+"/wrong-outcome", fmt.Sprintf("%d coroutines nested through %s: %q (expected the innermost value, or a caught error, and a working state afterwards)", depth, how, outs[0]), map[string]interface{}{"how": how, "depth": depth, "script": src})
+			}
+		}
+		r.Eval("nesting/"+how, true, func() interface{} {
+			return map[string]interface{}{"case": "coroutine nesting sweep", "how": how, "first_refused_depth": limit}
+		})
+		// (no limit inside the sweep is not an alarm: where the limit lies is the implementation's
+		// choice; that there is one is what the canaries decide)
+		r.Extra["coroutine_nesting_first_refused_depth_"+how] = limit
+	}
+	r.Count("coroutine_nesting_runs", int64(n))
 }
